@@ -1544,6 +1544,7 @@ impl Compiler {
             dst,
             constructor: ctor_reg,
             super_class: super_reg,
+            has_heritage: class.super_class.is_some(),
         });
 
         self.builder.free_register(ctor_reg);
